@@ -35,6 +35,10 @@ def generate(rng, opts):
     declare_form = r.random() < 0.6
     declare_length = r.random() < 0.7
     lazy = lg.insert_virtuals(r, truth, r.choice([1, 1, 2, 3]), declare_form, declare_length)
+    if any(k.isdigit() for k in lg.keys_of(truth)):
+        # tuples somewhere: the slices will use positional keys ("0", "1"), which also select a field of a *named* record
+        # by position - that does depend on the order in which a generator returns the fields
+        lg.drop_reordered(lazy)
     keys = lg.virtual_keys(lazy)
     policy = r.choice(POLICIES)
     cache = {"policy": policy, "get": [], "set": []}
@@ -248,9 +252,16 @@ def execute(node, case, rec, opts):
             rec.probe("materialised_operand_is_not_a_valid_layout")
             lslots.append(None); eslots.append(None)
             continue
-        if op["op"] == "combinations" and node.length(em) > 12:
-            lslots.append(None); eslots.append(None)
-            continue
+        if op["op"] == "combinations":
+            # combinatorial blow-up is legitimate work, not a hang: bounded by the longest list anywhere in the operand
+            from .pool import max_list_len
+            try:
+                too_long = node.length(em) > 12 or max_list_len(read_value(node, em)) > 12
+            except NodeError:
+                too_long = True
+            if too_long:
+                lslots.append(None); eslots.append(None)
+                continue
         try:
             has_records = op["op"] in ("reduce", "sort", "argsort") and b"RecordArray" in node.text(em, 6)
         except NodeError:
